@@ -66,6 +66,15 @@ CHECKS = {
          '0.8.4), every operator spelling, placements of experimental/abicoder pragmas, SafeMath attachment at file/contract level, and a symbolic revert-string length.',
     note='Monotonicity and pre/post exclusivity follow from the iff-oracle. Regex contract validated natively on every path. Outside: range pragmas.',
     technique='symbolic execution of MIR + Z3 over integer version triples, native replay', design='6/C09'),
+ 'C04': dict(
+    text='All 30 detectors executed from MIR on hostile but parseable files: no / non-solidity / malformed pragma (`0.8..4`, no digits, two components, '
+         'non-ASCII digit, symbolic components < 2^40), calls without arguments for every callee the detectors inspect, number literals as SYMBOLIC '
+         'naturals < 2^262 plus exponent / hex / rational / unit forms, every kind of top-level item and member (free functions, interfaces, libraries, '
+         'empty contracts), 0..257 functions before a constructor. Obligation: no path ends in a panic (unwrap/expect/index/parse/arithmetic), in the '
+         'overflow-checked and in the wrapping interpretation of the same MIR. Z3 decides every value-dependent panic site.',
+    note='Panics on the tree families of C05-C09 are reported by those checks. Every checked-mode path is replayed natively. '
+         'Outside: parser, stack depth.',
+    technique='symbolic execution of MIR (panic reachability) + Z3, two overflow modes, native replay', design='6/C04'),
 }
 NOT_YET = "check not built yet (framework under construction); see DESIGN.md section 6"
 NA = {
